@@ -199,6 +199,18 @@ F5c == UNION {{Prog("F5c", <<S(Asg("=", r, v)), cl, t>>) : v \in {Var("a"), Idx(
 \* return expression postpones an increment, or restores an index register after the value was loaded)
 RetE == {Call("ri", <<>>), Call("rd2", <<Num(2)>>), Call("rd2", <<Var("b")>>), Call("ra", <<Num(1)>>), Call("ra", <<Var("b")>>), Call("f", <<Num(3)>>), Call("k", <<>>)}
 F5h == UNION {{Prog("F5h", <<S(Asg("=", d, c1)), t>>) : c1 \in RetE, t \in TestsOn(d)} : d \in {Var("a"), Var("sb"), Var("X")}}
+\* F3f: a 16-bit shift statement (of a variable, of an element indexed by X) between the assignment of a register and its test:
+\* the flags are those of the shift
+F3f == UNION {{Prog("F3f", <<S(Asg("=", r, v)), S(Asg(sh, w, Num(1))), t>>) : v \in {Var("a"), Num(1)}, sh \in {"<<", ">>"},
+          w \in {Idx("sarr", Var("X")), Var("s")}, t \in {If(r, ThenElse[1], ThenElse[2]), If(Un("!", r), <<Set("sb", 1)>>, <<Set("sb", 2)>>), If(Bin("==", r, Num(0)), <<Set("sb", 1)>>, <<>>)}} :
+          r \in {Var("X"), Var("c")}}
+\* F8i: an element is tested, an element that may be the same one (spelled differently: constant index, X, Y) is modified, and the
+\* first is tested again: the second test must see the new value
+F8i == UNION {{Prog("F8i", <<Set("X", 1), Set("Y", 1), If(Bin("==", l, Num(3)), <<m, If(Bin("==", l, Num(n2)), <<Set("c", 1)>>, <<Set("c", 2)>>)>>, <<Set("c", 3)>>)>>) : n2 \in {4, 2, 6},
+          m \in {S(Inc(FALSE, 1, Idx("arr", Num(1)))), S(Inc(FALSE, 1, Idx("arr", Var("X")))), S(Inc(FALSE, 1, Idx("arr", Var("Y")))), S(Inc(FALSE, -1, Idx("arr", Num(1)))),
+                  S(Asg("<<", Idx("arr", Num(1)), Num(1))), S(Asg("<<", Idx("arr", Var("X")), Num(1))), S(Asg("+", Idx("arr", Var("Y")), Num(1))),
+                  S(Asg("=", Idx("arr", Num(1)), Num(4))), S(Asg("=", Idx("arr", Var("X")), Num(4)))}} :
+          l \in {Idx("arr", Var("X")), Idx("arr", Num(1)), Idx("arr", Var("Y"))}}
 \* F5d: a function with several returns of constants, followed by a constant assignment (a belief held on one return
 \* path must not reach the code after the call, in particular once the function is expanded inline)
 F5d == {Prog("F5d", <<S(Asg("=", d, Call("r2", <<>>))), S(Asg("=", v, Num(kk)))>>) : d \in {Var("c"), Var("X")}, v \in {Var("b"), Var("Y"), Var("sa")}, kk \in {1, 2, 0}}
@@ -395,6 +407,11 @@ F2d == {Prog("F2d", <<If(Bin(lop, p, q), <<Set("X", 1)>>, <<If(r, <<Set("X", 2)>
           q \in {Var("b"), Bin("<", Var("b"), Num(5))}, r \in {Var("b"), Var("a"), Un("!", Var("b")), Bin("==", Var("b"), Num(0))}}
        \cup {Prog("F2d", <<If(p, <<Set("X", 1)>>, <<If(Bin(lop, q, r), <<Set("X", 2)>>, <<Set("X", 3)>>)>>)>>) : lop \in {"&&", "||"}, p \in {Var("a"), Bin("<", Var("a"), Var("b"))},
           q \in {Var("b"), Var("a")}, r \in {Var("c"), Un("!", Var("a"))}}
+       \* the same with the && / || below a negation or below another operator (the else branch is still reached from several tests)
+       \cup {Prog("F2d", <<If(Un("!", Bin(lop, p, q)), <<Set("X", 1)>>, <<If(r, <<Set("X", 2)>>, <<Set("X", 3)>>)>>)>>) : lop \in {"&&", "||"}, p \in {Var("a"), Bin("==", Var("a"), Num(1))},
+          q \in {Var("b"), Bin("<", Var("b"), Num(5))}, r \in {Var("b"), Var("a"), Un("!", Var("b")), Bin("==", Var("b"), Num(0))}}
+       \cup {Prog("F2d", <<If(Bin(l1, Bin(l2, Var("a"), Var("c")), q), <<Set("X", 1)>>, <<If(r, <<Set("X", 2)>>, <<Set("X", 3)>>)>>)>>) : l1 \in {"&&", "||"}, l2 \in {"&&", "||"},
+          q \in {Var("b"), Bin("<", Var("b"), Num(5))}, r \in {Var("b"), Var("c"), Un("!", Var("b"))}}
 \* F2e: if / else if where the then-branch leaves a carry of its own (subtraction, addition, comparison): what the else branch
 \* believes about the carry must come from ITS path
 F2e == {Prog("F2e", <<If(g, <<t>>, <<If(Bin(op, Var("a"), k), <<Set("X", 1)>>, <<Set("X", 2)>>)>>)>>) : g \in {Bin("==", Var("a"), Num(0)), Bin("<", Var("a"), Num(2)), Bin(">=", Var("a"), Var("b"))},
@@ -501,7 +518,7 @@ RW == {Pair2("commute", <<S(Asg("=", d, Bin(op, l, r)))>>, <<S(Asg("=", d, Bin(o
       \cup {Pair2("callbody", <<S(Asg("=", d, Call("g", <<x, y>>)))>>, <<S(Asg("=", d, Bin("-", x, y)))>>) : d \in {Var("a"), Var("Y")}, x \in Arg, y \in {Var("b"), Num(1)}}
       \cup {Pair2("callbody", <<S(Call("h", <<>>)), S(Asg("=", Var("b"), Var("a")))>>, <<S(Inc(FALSE, 1, Var("a"))), S(Asg("=", Var("b"), Var("a")))>>)}
       \cup {Pair2("callbody", <<S(Call("w", <<x>>))>>, <<S(Asg("=", Var("c"), x))>>) : x \in Arg}
-AllFams == FO \cup F2e \cup F5h \cup F5g \cup F5f \cup F3e \cup F7dAll \cup F1n \cup F2d \cup FK \cup F5e \cup FT \cup FG \cup FP \cup FW \cup F3d \cup F4b \cup F5d \cup F8f \cup F8h \cup F8g \cup FL \cup F5c \cup F6 \cup F8 \cup F9 \cup F1a \cup F1b \cup F1c \cup F1d \cup F1e \cup F1f \cup F1g \cup F2a \cup F2b \cup F2c \cup F2z \cup F2s
+AllFams == FO \cup F2e \cup F3f \cup F8i \cup F5h \cup F5g \cup F5f \cup F3e \cup F7dAll \cup F1n \cup F2d \cup FK \cup F5e \cup FT \cup FG \cup FP \cup FW \cup F3d \cup F4b \cup F5d \cup F8f \cup F8h \cup F8g \cup FL \cup F5c \cup F6 \cup F8 \cup F9 \cup F1a \cup F1b \cup F1c \cup F1d \cup F1e \cup F1f \cup F1g \cup F2a \cup F2b \cup F2c \cup F2z \cup F2s
            \cup F3a \cup F3b \cup F3c \cup F4 \cup F5a \cup F5b \cup F7a \cup F7b \cup F7c
 Family ==
   CASE Fam = "ALL" -> AllFams [] Fam = "RW" -> RW [] Fam = "FX" -> FX \cup FS
@@ -510,7 +527,7 @@ Family ==
     [] Fam = "F2a" -> F2a [] Fam = "F2b" -> F2b [] Fam = "F2c" -> F2c [] Fam = "F2z" -> F2z [] Fam = "F2s" -> F2s
     [] Fam = "F3a" -> F3a [] Fam = "F3b" -> F3b [] Fam = "F3c" -> F3c
     [] Fam = "F4" -> F4 [] Fam = "F5a" -> F5a [] Fam = "F5b" -> F5b
-    [] Fam = "F7a" -> F7a [] Fam = "F7b" -> F7b [] Fam = "F7c" -> F7c [] Fam = "FW" -> FW [] Fam = "FL" -> FL [] Fam = "F5c" -> F5c [] Fam = "F6" -> F6 [] Fam = "F8" -> F8 [] Fam = "F8g" -> F8g [] Fam = "FP" -> FP [] Fam = "FG" -> FG [] Fam = "FT" -> FT [] Fam = "F5e" -> F5e [] Fam = "FK" -> FK [] Fam = "F1n" -> F1n [] Fam = "F2d" -> F2d [] Fam = "F7d" -> F7dAll [] Fam = "F3e" -> F3e [] Fam = "F5f" -> F5f [] Fam = "F5g" -> F5g [] Fam = "F5h" -> F5h [] Fam = "F2e" -> F2e [] Fam = "FO" -> FO [] Fam = "F8f" -> F8f [] Fam = "F3d" -> F3d [] Fam = "F4b" -> F4b [] Fam = "F5d" -> F5d [] Fam = "F9" -> F9
+    [] Fam = "F7a" -> F7a [] Fam = "F7b" -> F7b [] Fam = "F7c" -> F7c [] Fam = "FW" -> FW [] Fam = "FL" -> FL [] Fam = "F5c" -> F5c [] Fam = "F6" -> F6 [] Fam = "F8" -> F8 [] Fam = "F8g" -> F8g [] Fam = "FP" -> FP [] Fam = "FG" -> FG [] Fam = "FT" -> FT [] Fam = "F5e" -> F5e [] Fam = "FK" -> FK [] Fam = "F1n" -> F1n [] Fam = "F2d" -> F2d [] Fam = "F7d" -> F7dAll [] Fam = "F3e" -> F3e [] Fam = "F5f" -> F5f [] Fam = "F5g" -> F5g [] Fam = "F5h" -> F5h [] Fam = "F3f" -> F3f [] Fam = "F8i" -> F8i [] Fam = "F2e" -> F2e [] Fam = "FO" -> FO [] Fam = "F8f" -> F8f [] Fam = "F3d" -> F3d [] Fam = "F4b" -> F4b [] Fam = "F5d" -> F5d [] Fam = "F9" -> F9
 
 VARIABLE prog
 Init == prog \in Family
